@@ -2,6 +2,7 @@
    list, prod, unit, sumbool map to OCaml's; Z, N, positive, nat, byte stay the extracted
    inductive types.  No Extract Constant. *)
 From Coq Require Import Extraction ExtrOcamlBasic.
+From GV Require Import Tables.ObsTypes Tables.Lookup Gen.Obs Tables.Enum.
 From GV Require Import Base.Bytes Base.Hex Base.LE Vedirect.Frame Vedirect.Port Vedirect.Driver Vedirect.Judge Vedirect.Resync.
 Extraction Language OCaml.
 Set Extraction KeepSingleton.
@@ -10,4 +11,5 @@ Extraction "gvcore.ml"
   tx_frame tx_wellformed C03_frame_ok parse_tx valid_responseb
   vd_new run_calls le_encode le_encode_signed checksum hex_upper
   C01_call_ok C05_call_ok C06_call_ok call_is_typed call_is_get
-  a_get_call a_get a_result_matches items_of_events.
+  a_get_call a_get a_result_matches items_of_events
+  obs_fieldlists fl_fields fl_render render_ok f_map f_name.
